@@ -215,15 +215,21 @@ func (kc *Cache[V]) Closest(key []byte) (ret *Entry[V]) {
 // IsFull returns whether the cache is full
 // further calls to Put will attempt an eviction.
 func (kc *Cache[V]) IsFull() bool {
+	kc.mu.RLock()
+	defer kc.mu.RUnlock()
 	return kc.count >= kc.max
 }
 
 // Count returns the number of entries in the cache.
 func (kc *Cache[V]) Count() int {
+	kc.mu.RLock()
+	defer kc.mu.RUnlock()
 	return kc.count
 }
 
 func (kc *Cache[V]) AcceptingPrefixLen() int {
+	kc.mu.RLock()
+	defer kc.mu.RUnlock()
 	if kc.count+1 < kc.max {
 		return 0
 	}
